@@ -220,6 +220,44 @@ PROPS["C25"] = {
     "explanation": "vector index state vs. history model incl. save/load",
 }
 
+PROPS["C27"] = {
+    "engine": "bounded-standin",
+    "standin": ["standin_authz_programs"],
+    "verus": [],
+    "kani": [],
+    "level": "exploration",
+    "level_text": "BOUNDED STAND-IN ONLY - nothing is proved for this property. Authorization is inlined in the async Handler::execute_program and depends on string parsing of the whole program (outside both verifiers); the role lattice it consults is proved under C28. A real Handler with bootstrapped authentication, a knowledge graph kg1 (facts, a rule, a schema) and three non-admin users without write permission on it (global viewer + KG viewer; global editor + KG viewer; global editor without a KG role) submit, through Handler::execute_program, 7 state-changing statements (insert, bulk insert, delete, conditional delete, persistent rule, rule drop, schema declaration) wrapped in 9 program shapes (alone; after / before a query line; after a comment; after blank + comment lines; after a session rule; two writes; leading whitespace; after a continuation-line query): after every request base tuples, persistent rules and schemas of kg1 must be what they were. Control: a KG editor can write.",
+    "level_note": "bounded: 7 statements x 9 shapes x 3 identities = 189 requests on one knowledge graph; `.kg use` switches to a second user-owned graph, updates, session facts and meta commands other than those of C29 are not exercised",
+    "technique": "bounded stand-in tests on the real code (cargo test in a scratch copy of the working tree, module injected insert-only); the contract (state unchanged / request refused) is evaluated on enumerated programs and identities; labelled bounded, never counted as proved; no deductive obligation exists for this property",
+    "aux_failure": "violation",
+    "functions_under_contract": [],
+    "assumptions": [
+        "nothing is proved; the stated bound is the whole coverage",
+        "users and ACL entries are created through Handler::handle_user_create / handle_kg_acl_grant; HTTP/WebSocket authentication in front of execute_program is not exercised",
+    ],
+    "trusted_base": ["rustc/cargo test on the scratch copy", "witness/authz_common.rs"],
+    "explanation": "no write without write permission, whatever the program shape",
+}
+
+PROPS["C29"] = {
+    "engine": "bounded-standin",
+    "standin": ["standin_internal_kg"],
+    "verus": [],
+    "kani": [],
+    "level": "exploration",
+    "level_text": "BOUNDED STAND-IN ONLY - nothing is proved for this property. Authorization is inlined in the async Handler::execute_program and depends on string parsing of the whole program (outside both verifiers); the role lattice it consults is proved under C28. The same three non-admin users submit 7 programs with the internal knowledge graph as the request's target (queries on users / kg_acls, inserts, deletes, with comments and after a query line) and 7 programs naming it in `.kg use/create/drop` alone and inside multi-line programs (followed by reads or writes of users / kg_acls): every request with the internal graph as target must be refused, no request may return rows of it or switch the session to it, and its relations must be unchanged afterwards.",
+    "level_note": "bounded: 14 programs x 3 identities; session re-binding through the WebSocket session manager is not exercised (session_id = None)",
+    "technique": "bounded stand-in tests on the real code (cargo test in a scratch copy of the working tree, module injected insert-only); the contract (state unchanged / request refused) is evaluated on enumerated programs and identities; labelled bounded, never counted as proved; no deductive obligation exists for this property",
+    "aux_failure": "violation",
+    "functions_under_contract": [],
+    "assumptions": [
+        "nothing is proved; the stated bound is the whole coverage",
+        "users and ACL entries are created through Handler::handle_user_create / handle_kg_acl_grant; HTTP/WebSocket authentication in front of execute_program is not exercised",
+    ],
+    "trusted_base": ["rustc/cargo test on the scratch copy", "witness/authz_common.rs"],
+    "explanation": "internal knowledge graph unreachable for non-admins",
+}
+
 PRE_HOOKS = {"coercion_table": _pre_coercion_table}
 
 PROPS["C12"] = {
